@@ -32,7 +32,7 @@ ASSUMPTIONS = [
     "column names are single-line strings; ListOfDicts keys are strings",
 ]
 REACH = {"quick": {"cls:vector": 1000, "cls:frame": 2000, "cls:geojson": 500, "cls:lod": 800, "layout-parsed": 2000, "rows-cut": 300, "print_-compared": 1500,
-                   "wide-chars": 500, "zero-row-frame": 100, "geojson:null-geometry": 150, "multi-block": 300}}
+                   "wide-chars": 500, "zero-row-frame": 100, "geojson:null-geometry": 150, "multi-block": 300, "grouped-frame": 200}}
 
 WIDE = ["日本語", "ｗｉｄｅ", "é", "\U0001F600", "漢", "ö", "áb"]
 MULTI = ["line1\nline2", "a\nb\nc", "tab\there", "cr\r\nlf", "lone\rcr", "sep\u2028arator", "form\x0cfeed", "next\x85line", "para\u2029graph"]
@@ -76,6 +76,7 @@ def generate(rng, tier):
         if rng.random() < 0.5: opts["max_width"] = rng.choice([5, 10, 30, 60, 300])
         if rng.random() < 0.4: opts["truncate_width"] = rng.choice([1, 2, 8, 50])
         case["opts"] = opts
+        case["grouped"] = rng.random() < 0.2
         if cls == "geojson":
             geoms = [rng.choice([{"type": "Point", "coordinates": [1, 2]}, {"type": "Polygon", "coordinates": [[[0, 0], [1, 1], [0, 1], [0, 0]]]}, None,
                                  {"type": "MultiLineString", "coordinates": []}]) for _ in range(nrow)]
@@ -224,6 +225,9 @@ def _run(di, case, res):
         else:
             df = gen.build_frame(spec)
         names = list(dict.keys(df))
+        if case.get("grouped") and names and names[0] != "geometry":
+            df.group_by(names[0])        # group_by marks and returns the receiver; a grouped frame must render like any other
+            res.cls("grouped-frame")
         if nrow == 0 and names: res.cls("zero-row-frame")
         res.sig = f"{cls}|{gen.spec_sig(spec)}|n{gen.nrow_class(nrow)}|{sorted(opts.items())}|{sorted(settings)}|{case['columns_env']}"
         res.nontrivial = nrow >= 1 and bool(names)
@@ -232,6 +236,7 @@ def _run(di, case, res):
         if any(any(_ulen(ch) != 1 for ch in nm) for nm in names) or any(isinstance(v, str) and any(_ulen(ch) != 1 for ch in v) for _, _, vs in spec for v in vs):
             res.cls("wide-chars")
         feat = ("null-geometry" if cls == "geojson" and case["with_geometry"] and any(x is None for x in case["geoms"]) else "plain")
+        if case.get("grouped") and names and names[0] != "geometry": feat += "+grouped"
         call_opts = dict(opts)
         ok, s = _try(res, f"{cls}.to_string", feat, lambda: df.to_string(**call_opts), ctx)
         ok2, s2 = _try(res, f"{cls}.__str__", feat, lambda: (str(df), repr(df)), ctx)
